@@ -880,6 +880,7 @@ func (te *TemplateEngine) cloneDocument(source *Document) *Document {
 		}
 		copy(doc.documentRelationships.Relationships, source.documentRelationships.Relationships)
 	}
+	doc.stylesRelID = source.stylesRelID
 
 	// 复制内容类型
 	if source.contentTypes != nil {
